@@ -15,14 +15,14 @@ META = {
         'runs nord-1 times and adds one knot below index 0 and one above the end per iteration with step bkspace*i; C08.COVER - both '
         '"breakpoint does not cover x" repairs exist, store x.min()/x.max() at the arg-min/arg-max knot, and spacing and padding read '
         'the repaired array; C08.ACTION - lower and upper row bounds of every interval each come from their own uniq() pass over the '
-        'interval index; C08.RECUR - the inner loop of bsplvn is the published Cox-de Boor (BSPLVN) recurrence, term l dividing by deltap[l] + deltam[j-l], with knot differences t[ileft+j+1]-x and x-t[ileft-j] (AST isomorphism with a frozen oracle); C08.INTRV - the interval index advances in a while loop until x <= next knot; C08.EVERYN - the every-n placement picks positions bounded by nx - 1, out of the SORTED abscissae; C08.NBKPT - spaced breakpoint placements use at least two breakpoints. C08.FLOAT-WORK - the arrays receiving basis and spline values are floating whatever the dtype of the evaluation points; C08.EVERYN also: every-n breakpoints are picked out of the SORTED abscissae. NOT decided: partition of unity and non-negativity as numerical facts, mask exactness, single-precision rounding of the placement.'),
+        'interval index; C08.RECUR - the inner loop of bsplvn is the published Cox-de Boor (BSPLVN) recurrence, term l dividing by deltap[l] + deltam[j-l], with knot differences t[ileft+j+1]-x and x-t[ileft-j] (AST isomorphism with a frozen oracle); C08.INTRV - the interval index advances in a while loop until x <= next knot; C08.EVERYN - the every-n placement picks positions bounded by nx - 1, out of the SORTED abscissae; C08.NBKPT - spaced breakpoint placements use at least two breakpoints. C08.FLOAT-WORK - the arrays receiving basis and spline values are floating whatever the dtype of the evaluation points; C08.EVERYN also: every-n breakpoints are picked out of the SORTED abscissae. C08.MEMO-KEY - a value the bspline object caches (`if <validity test>: self._x = ...`) is revalidated against every attribute it is computed from, the attributes read by the methods it calls included (no instance while the object keeps no cache); NOT decided: partition of unity and non-negativity as numerical facts, mask exactness, single-precision rounding of the placement.'),
     'floors': {'C08.UNSORT': 4, 'C08.PAD': 2, 'C08.COVER': 4, 'C08.ACTION': 2, 'C08.RECUR': 2, 'C08.INTRV': 2, 'C08.NBKPT': 1, 'C08.EVERYN': 2, 'C08.FLOAT-WORK': 2},
 }
 
 
 def run(ctx):
     from ..memo import check_memo_keys
-    check_memo_keys(ctx, ctx.repo, 'pydl/pydlutils/bspline.py', 'bspline', 'C08.MEMO-KEY')
+    check_memo_keys(ctx, ctx.repo, 'pydl/pydlutils/bspline.py', 'bspline', 'C08.MEMO-KEY', follow_methods=True)
     check_value_unsort(ctx, ctx.repo, 'C08.UNSORT')
     check_pad(ctx, ctx.repo, 'C08.PAD')
     check_cover(ctx, ctx.repo, 'C08.COVER')
